@@ -1,4 +1,5 @@
 import SwcVerif.Refine.AscLex
+import SwcVerif.Refine.AscBad
 import SwcVerif.Props.C15Gen
 /-! C15, character level, about the definitions GENERATED from the current source (`Gen/AlgoAscLex.lean`: `Lexer.__init__`, `__next__`,
 `_read_word`, `_read_char`, `_read_line`, `_token` of `swcgeom/transforms/neurolucida_asc.py`, translated on every run): the generated
@@ -66,14 +67,11 @@ theorem generated_text_convert_eq_model (encF : SwcText.Sci → Int) (s : SwcTex
   subst h2
   exact key
 
-/-- **PARTIAL — texts on which the lexer raises** (`Asc.Tok.bad ∈ Asc.tokens s`): the generated lexer part is resolved — the conversion
-from the text is `AlgoRun.ascConvertPrefix` (the generated parser run on the tokens BEFORE the failure, rejecting iff it asked for one
-more: the real parser pulls tokens on demand) applied to `enc` of the model's tokens before its first `.bad`.
-MISSING for the full equality with `Asc.convert s` on such texts: (1) a model lemma "`Asc.convertTokens (pre ++ .bad :: rest)` = the run on
-`pre`, an error iff that run errs or consumes all of `pre`" (induction over `parseSubtree` / `parseTop` like `RefineAscFuel`), (2)
-`RefineAscTop.parse_refines` strengthened to expose the parser's final `next_token` (= the head of the model's final remaining tokens).
-Until then this branch is tied by the `gasctext` correspondence lines (documents followed by a rejected word) only. -/
-theorem generated_text_convert_bad_partial (encF : SwcText.Sci → Int) (s : SwcText.Str) (hb : Asc.Tok.bad ∈ Asc.tokens s) :
+/-- texts on which the lexer raises (`Asc.Tok.bad ∈ Asc.tokens s`), lexer part: the conversion from the text is `AlgoRun.ascConvertPrefix`
+(the generated parser run on the tokens BEFORE the failure, rejecting iff it asked for one more: the real parser pulls tokens on demand)
+applied to `enc` of the model's tokens before its first `.bad`.  (Formerly `generated_text_convert_bad_prefix`; the two lemmas that were
+missing are `RefineAscBad.convertTokens_bad` and `RefineAscBad.parse_refinesL`, the full statement is `generated_text_convert_eq_model_all`.) -/
+theorem generated_text_convert_bad_prefix (encF : SwcText.Sci → Int) (s : SwcText.Str) (hb : Asc.Tok.bad ∈ Asc.tokens s) :
     AlgoRun.ascConvertText encF s = AlgoRun.ascConvertPrefix ((goodPrefix (Asc.tokens s)).1.map (enc encF)) := by
   obtain ⟨h1, h2⟩ := generated_lex_eq_model encF s
   rw [(goodPrefix_snd _).mpr hb] at h2
@@ -124,5 +122,109 @@ example : Asc.tokens "(1abc (".toList = [.lp, .bad, .lp] := by decide +kernel
 values as the real `Lexer` (compared on every suite document by the `gasclex` lines) -/
 example : (AlgoRun.ascLexAll exEnc "(a 1.5\n;x y\n|".toList).1.map (fun t => (t.type, t.lineno, t.column)) =
     [(1, 1, 2), (6, 1, 3), (5, 2, 1), (3, 3, 1), (4, 3, 1)] := by decide +kernel
+
+/-! ### EVERY text (T29): the lexer failure included -/
+
+/-- **END TO END, FROM THE TEXT, FOR EVERY TEXT** — no hypothesis on `s`: the generated `Lexer` run until it stops or RAISES (`float()`
+rejecting a word `RE_FLOAT` matched), the generated `Parser` and the generated `from_ast`, composed as `from_stream` does with the parser
+pulling tokens on demand (`AlgoRun.ascConvertText`: when the lexer raises, the parser runs on the tokens before the failure and the document
+is rejected iff the parser asked for one more token), return exactly the table of the hand-written `Asc.convert s`, and raise (`none`)
+exactly when the model has an error.  In particular a rejected word BEHIND the last token the parser looks at (trailing garbage after the
+closing bracket + one look-ahead token) does not make the conversion fail, anywhere before that it does — in the model and in the generated
+code alike.  All fuels are part of the statement; no size bound. -/
+theorem generated_text_convert_eq_model_all (encF : SwcText.Sci → Int) (s : SwcText.Str) :
+    AlgoRun.ascConvertText encF s =
+      match Asc.convert s with
+      | .ok rows => some ((rows.length : Int), colsOf (RefineAscHeap.encRows encF 0 rows))
+      | .error _ => none := by
+  by_cases hb : Asc.Tok.bad ∈ Asc.tokens s
+  · rw [generated_text_convert_bad_prefix encF s hb]
+    exact RefineAscBad.convertPrefix_eq_model encF (Asc.tokens s) hb
+  · exact generated_text_convert_eq_model encF s (fun t ht h => hb (h ▸ ht))
+
+/-- the generated conversion rejects a text exactly when the model does -/
+theorem generated_text_rejected_iff (encF : SwcText.Sci → Int) (s : SwcText.Str) :
+    AlgoRun.ascConvertText encF s = none ↔ ∃ e, Asc.convert s = .error e := by
+  rw [generated_text_convert_eq_model_all encF s]
+  cases Asc.convert s with
+  | error e => simp
+  | ok rows => simp
+
+/-- (a) restated: the model on a token stream with a lexer failure after `pre` — decided by the run on `pre` (`RefineAscBad.convertWithL` =
+`convertWith` that also returns the tokens left after the closing bracket): an error of that run or a run that uses up `pre` ↦ error; tokens
+of `pre` left ↦ the same rows -/
+theorem model_convert_bad (pre ext : List Asc.Tok) (hnb : NoBad pre) :
+    match RefineAscBad.convertWithL (2 * pre.length + 4) pre with
+    | .error _ => ∃ e, Asc.convertTokens (pre ++ .bad :: ext) = .error e
+    | .ok (rest, rows) => if rest = [] then ∃ e, Asc.convertTokens (pre ++ .bad :: ext) = .error e
+        else Asc.convertTokens (pre ++ .bad :: ext) = .ok rows :=
+  RefineAscBad.convertTokens_bad ext pre hnb
+
+/-- **A MALFORMED NUMBER INSIDE THE DOCUMENT IS REJECTED, from the text, by the generated code**: a text whose token stream is the first `k`
+tokens of a well-formed single-tree document `( (label) <branch> )` (`k` < its length: anywhere before the final closing bracket has been
+read — in particular at a coordinate or the radius inside a point, at any depth), then a word that `RE_FLOAT` matches and `float()` rejects
+(`.bad`, e.g. `3x`, `1.5e`, `1.2.3`), then ANYTHING (`ext`, e.g. the well-formed rest of the document): the generated lexer + parser + walk
+raise; nothing is converted in part. -/
+theorem generated_bad_point_rejected_text (encF : SwcText.Sci → Int) (s : SwcText.Str) (label : SwcText.Str) (b : Branch) (k : Nat)
+    (ext : List Asc.Tok)
+    (hl : Asc.upper label = "AXON".toList ∨ Asc.upper label = "DENDRITE".toList) (hb : NonEmpty b)
+    (hk : k < (docToks label b).length)
+    (hs : Asc.tokens s = (docToks label b).take k ++ .bad :: ext) :
+    AlgoRun.ascConvertText encF s = none := by
+  rw [generated_text_rejected_iff]
+  unfold Asc.convert
+  rw [hs]
+  have hnb : NoBad ((docToks label b).take k) := fun x hx => noBad_docToks label b x (List.mem_of_mem_take hx)
+  have hd : docToks label b = [Asc.Tok.lp, Asc.Tok.lp, Asc.Tok.literal label, Asc.Tok.rp] ++ (branchToks b ++ [Asc.Tok.rp]) := by
+    simp [docToks]
+  refine RefineAscBad.convertTokens_bad_of_error _ ext hnb ?_
+  rw [hd]
+  exact truncation_rejected label b k hl hb (by rw [← hd]; exact hk)
+
+/-- **A DOCUMENT THAT ENDS PREMATURELY IS REJECTED, from the text, by the generated code**: a text that stops after `k` complete tokens of a
+well-formed single-tree document (`k` < its length), or INSIDE a token in such a way that the remaining piece is a word `float()` rejects
+(`cut = [.bad]`: `4.5e1` cut to `4.5e`, `-7` cut to `-`…  a number cut to a shorter VALID number is the first case for the document with that
+number): the generated lexer + parser + walk raise. -/
+theorem generated_truncation_rejected_text (encF : SwcText.Sci → Int) (s : SwcText.Str) (label : SwcText.Str) (b : Branch) (k : Nat)
+    (cut : List Asc.Tok)
+    (hl : Asc.upper label = "AXON".toList ∨ Asc.upper label = "DENDRITE".toList) (hb : NonEmpty b)
+    (hk : k < (docToks label b).length) (hcut : cut = [] ∨ cut = [.bad])
+    (hs : Asc.tokens s = (docToks label b).take k ++ cut) :
+    AlgoRun.ascConvertText encF s = none := by
+  rcases hcut with rfl | rfl
+  · rw [generated_text_rejected_iff]
+    unfold Asc.convert
+    rw [hs, List.append_nil]
+    have hd : docToks label b = [Asc.Tok.lp, Asc.Tok.lp, Asc.Tok.literal label, Asc.Tok.rp] ++ (branchToks b ++ [Asc.Tok.rp]) := by
+      simp [docToks]
+    rw [hd]
+    exact truncation_rejected label b k hl hb (by rw [← hd]; exact hk)
+  · exact generated_bad_point_rejected_text encF s label b k [] hl hb hk hs
+
+/-! non-vacuity (kernel-evaluated) -/
+def exTextBadPoint : SwcText.Str := "((Axon)(0 1 2 3)((4 5x 6 7)|(8 9 10 11)))".toList
+def exTextCut : SwcText.Str := "((Axon)(0 1 2 3)((4 5 6 7.5e".toList
+/-- a malformed coordinate in the second point: the token stream is 13 tokens of the document `exModelToks`, `.bad`, the rest -/
+example : Asc.tokens exTextBadPoint = exModelToks.take 13 ++ .bad :: (Asc.tokens exTextBadPoint).drop 14 := by decide +kernel
+example : (Asc.tokens exTextBadPoint).drop 14 ≠ [] := by decide +kernel
+example : AlgoRun.ascConvertText exEnc exTextBadPoint = none ∧ (Asc.convert exTextBadPoint).toOption = none := by decide +kernel
+/-- a document cut inside the number `7.5e1` -/
+example : Asc.tokens exTextCut = exModelToks.take 15 ++ [.bad] := by decide +kernel
+example : AlgoRun.ascConvertText exEnc exTextCut = none ∧ (Asc.convert exTextCut).toOption = none := by decide +kernel
+/-- the all-texts theorem on the two texts of the examples above where the failing word is / is not reached -/
+example : AlgoRun.ascConvertText exEnc "((Axon)(1 2 3 4))( 1abc".toList =
+    match Asc.convert "((Axon)(1 2 3 4))( 1abc".toList with
+    | .ok rows => some ((rows.length : Int), colsOf (RefineAscHeap.encRows exEnc 0 rows))
+    | .error _ => none := generated_text_convert_eq_model_all exEnc _
+
+/-- the two rejection theorems apply to these texts (all hypotheses discharged by kernel evaluation) -/
+def exBranch : Branch := .fork ⟨exSci 0, exSci 1, exSci 2, exSci 3⟩ []
+    [.leaf [⟨exSci 4, exSci 5, exSci 6, exSci 7⟩], .leaf [⟨exSci 8, exSci 9, exSci 10, exSci 11⟩]]
+example : AlgoRun.ascConvertText exEnc exTextBadPoint = none :=
+  generated_bad_point_rejected_text exEnc exTextBadPoint "Axon".toList exBranch 13 ((Asc.tokens exTextBadPoint).drop 14)
+    (Or.inl (by decide +kernel)) trivial (by decide +kernel) (by decide +kernel)
+example : AlgoRun.ascConvertText exEnc exTextCut = none :=
+  generated_truncation_rejected_text exEnc exTextCut "Axon".toList exBranch 15 [.bad]
+    (Or.inl (by decide +kernel)) trivial (by decide +kernel) (Or.inr rfl) (by decide +kernel)
 
 end C15
